@@ -43,7 +43,9 @@ def make_header(rng, supported, synonyms):
             q = rng.choice([1000, 900, 800, 500, 501, 100, 1, 0, 0, rng.randint(0, 1000)])
             qs = ("%.3f" % (q / 1000)).rstrip("0").rstrip(".") if rng.random() < 0.7 else "%.3f" % (q / 1000)
             sep = rng.choice([";q=", "; q=", " ;q=", " ; q="])
-            text.append(t + sep + qs)
+            params = rng.choice(["", "", "", ";charset=utf-8", "; charset=UTF-8", ";profile=x;charset=utf-8"])   # media-range parameters
+            ext = rng.choice(["", "", "", ";ext=1"])                                                             # accept-ext
+            text.append(t + params + sep + qs + ext)
         else:
             q = 1000
             text.append(t)
@@ -83,8 +85,12 @@ class C18(SimpleProperty):
         for _ in range(3):
             r = rng.random()
             ident = "".join(rng.choice(SAFE) for _ in range(rng.choice([0, 1, 2, 3, 4])))   # also exactly a URI prefix
-            if r < 0.8:
+            if r < 0.7:
                 qs.append(rng.choice(allu) + ident)
+            elif r < 0.85:
+                # not a URI of the converter, but shaped like one of its CURIEs (scheme = a registered prefix or synonym)
+                names = [uncps(x) for r_ in recs for x in [r_["p"]] + r_["ps"]]
+                qs.append(rng.choice(names) + ":" + (ident or "x"))
             else:
                 qs.append("http://unknown.example/" + ident)
         case = {"records": recs, "uris": qs, "hseed": rng.randrange(10 ** 9)}
@@ -99,6 +105,7 @@ class C18(SimpleProperty):
         import random
 
         import rdflib
+        from rdflib.plugins.sparql import prepareQuery
         from curies import Converter
         from curies.mapping_service import MappingServiceGraph, MappingServiceSPARQLProcessor, get_flask_mapping_app
         from curies.mapping_service import utils as U
@@ -144,6 +151,7 @@ class C18(SimpleProperty):
                 for placement in ("inside", "after"):
                     q = sparql(u, direction, placement)
                     per[f"{direction}/{placement}"] = rows(graph.query(q, processor=proc), other)
+                    per[f"prepared/{direction}/{placement}"] = rows(graph.query(prepareQuery(q), processor=proc), other)
                     hdr = {"accept": "application/json"}
                     per[f"flask_get/{direction}/{placement}"] = http_rows(fl.get("/sparql", query_string={"query": q}, headers=hdr).text, other)
                     per[f"flask_post/{direction}/{placement}"] = http_rows(fl.post("/sparql", data={"query": q}, headers=hdr).text, other)
